@@ -9,7 +9,7 @@ CONSTANTS
   FIXED = FALSE
   ERRS = {FALSE, TRUE}
   TTL = TRUE
-  CLEAR = TRUE
+  CLEAR = FALSE
 INVARIANT QInv
 INVARIANT PNoCrash
 PROPERTY Refines
